@@ -32,6 +32,9 @@ CHECKS = {
  "C10": ("exploration", "property-based testing (proptest): chains of field operations over every operator/method form (52 forms) on 3 fields x 2 backends with limb-pattern operands vs. big-integer arithmetic mod p, compared through canonical bytes after every step",
          "Generated-input search (1.2M chains quick); per-(backend, field, form) counts in the evidence, a form never run fails the run as a harness error.",
          "Trusts num-bigint arithmetic; zero divisors excluded (documented panic).", "5/C10"),
+ "C17": ("exploration", "exhaustive enumeration of a finite table (the degenerate case of generated-input search): every public constant x configuration, each literal compared with a value recomputed from the modulus by the big-integer model or with its defining equation; reference arkworks crates as second opinion",
+         "The domain (about 135 rows: ~60 constants x 2 configurations plus trait views and pairing-curve configs) is finite and enumerated completely on every run (exhaustive: true).",
+         "Moduli derived from the BLS parameter; generator test complete only for Fq (full factorisation of q-1), necessary conditions + documented value for Fr/Fp.", "5/C17"),
 }
 PENDING = {}
 
